@@ -8,6 +8,9 @@ package main
 //     hand-offs would hide races): any report of the Go race detector is a violation.
 
 import (
+	kio "github.com/flanglet/kanzi-go/v2/io"
+	kanzi "github.com/flanglet/kanzi-go/v2"
+	"sync/atomic"
 	"bytes"
 	"fmt"
 	"os"
@@ -31,11 +34,14 @@ type isoCase struct {
 	Rounds int       `json:"rounds"`
 	K      int       `json:"k"` // concurrent pipelines
 	Ck     int       `json:"checksum,omitempty"` // 0 = 32 bits (default), 64, -1 = none
+	// Feat: optional code paths inside one instance: "listener" (block listeners on Writer and Reader,
+	// verbosity 5 so that BLOCK_INFO events are built), "skip" (skipBlocks), "range" (from/to)
+	Feat string `json:"feature,omitempty"`
 }
 
 func (i isoCase) String() string {
-	if i.Ck != 0 {
-		return fmt.Sprintf("%s/%s|%s/%s|%d|%d|%d|%d|%d|ck%d", i.TA, i.EA, i.TB, i.EB, i.Jobs, i.Len, i.Block, i.Rounds, i.K, i.Ck)
+	if i.Ck != 0 || i.Feat != "" {
+		return fmt.Sprintf("%s/%s|%s/%s|%d|%d|%d|%d|%d|ck%d|%s", i.TA, i.EA, i.TB, i.EB, i.Jobs, i.Len, i.Block, i.Rounds, i.K, i.Ck, i.Feat)
 	}
 	return fmt.Sprintf("%s/%s|%s/%s|%d|%d|%d|%d|%d", i.TA, i.EA, i.TB, i.EB, i.Jobs, i.Len, i.Block, i.Rounds, i.K)
 }
@@ -55,7 +61,11 @@ func shapeFor(t string) string {
 }
 
 // pipeline: compress then decompress; returns stream and decoded bytes
-func pipeline(t, e string, blk, jobs uint, data []byte, ck int) ([]byte, []byte, error) {
+type nopListener struct{ n int64 }
+
+func (l *nopListener) ProcessEvent(evt *kanzi.Event) { atomic.AddInt64(&l.n, int64(evt.Type())+1) }
+
+func pipeline(t, e string, blk, jobs uint, data []byte, ck int, feat ...string) ([]byte, []byte, error) {
 	cks := uint(32)
 	switch ck {
 	case 64:
@@ -63,16 +73,66 @@ func pipeline(t, e string, blk, jobs uint, data []byte, ck int) ([]byte, []byte,
 	case -1:
 		cks = 0
 	}
-	p := Params{t, e, blk, jobs, cks, int64(len(data)), false, false}
-	stream, where, err := compress(data, p)
+	f := ""
+	if len(feat) > 0 {
+		f = feat[0]
+	}
+	p := Params{t, e, blk, jobs, cks, int64(len(data)), false, f == "skip"}
+	if f == "" || f == "skip" {
+		stream, where, err := compress(data, p)
+		if err != nil {
+			return nil, nil, fmt.Errorf("%s: %v", where, err)
+		}
+		res := decompress(stream, jobs, nil, 8192)
+		if res.Err != nil {
+			return stream, res.Out, res.Err
+		}
+		return stream, res.Out, nil
+	}
+	// listener / range: drive the objects directly
+	sk := &memSink{}
+	wctx := p.ctx()
+	wctx["verbosity"] = uint(5)
+	w, err := kio.NewWriterWithCtx(sk, wctx)
 	if err != nil {
-		return nil, nil, fmt.Errorf("%s: %v", where, err)
+		return nil, nil, err
 	}
-	res := decompress(stream, jobs, nil, 8192)
+	wl := &nopListener{}
+	w.AddListener(wl)
+	if _, err := w.Write(data); err != nil {
+		return nil, nil, fmt.Errorf("write: %v", err)
+	}
+	if err := w.Close(); err != nil {
+		return nil, nil, fmt.Errorf("close: %v", err)
+	}
+	rctx := map[string]any{"jobs": jobs, "verbosity": uint(5)}
+	want := data
+	if f == "range" {
+		nb := (len(data) + int(blk) - 1) / int(blk)
+		from, to := 2, max(nb, 3)
+		rctx["from"], rctx["to"] = from, to
+		lo, hi := min((from-1)*int(blk), len(data)), min((to-1)*int(blk), len(data))
+		want = data[lo:hi]
+	}
+	r, err := kio.NewReaderWithCtx(newSrc(sk.Bytes()), rctx)
+	if err != nil {
+		return sk.Bytes(), nil, err
+	}
+	rl := &nopListener{}
+	r.AddListener(rl)
+	res := drain(r, 8192, 0)
+	r.Close()
 	if res.Err != nil {
-		return stream, res.Out, res.Err
+		return sk.Bytes(), res.Out, res.Err
 	}
-	return stream, res.Out, nil
+	if f == "range" {
+		// the caller compares with the whole input: give it back when the slice is right
+		if !bytes.Equal(res.Out, want) {
+			return sk.Bytes(), res.Out, fmt.Errorf("range decode returned a wrong slice (%d bytes, want %d)", len(res.Out), len(want))
+		}
+		return sk.Bytes(), data, nil
+	}
+	return sk.Bytes(), res.Out, nil
 }
 
 func runIso(c isoCase) (*Fail, bool) {
@@ -85,7 +145,7 @@ func runIso(c isoCase) (*Fail, bool) {
 	alone := make([][]byte, len(specs))
 	for i, s := range specs {
 		datas[i] = shape(shapeFor(s.t), c.Len+i*13)
-		st, out, err := pipeline(s.t, s.e, c.Block, c.Jobs, datas[i], c.Ck)
+		st, out, err := pipeline(s.t, s.e, c.Block, c.Jobs, datas[i], c.Ck, c.Feat)
 		if err != nil || !bytes.Equal(out, datas[i]) {
 			return nil, false // C01's business
 		}
@@ -103,7 +163,7 @@ func runIso(c isoCase) (*Fail, bool) {
 						errs[i] = fmt.Sprintf("panic: %v", rec)
 					}
 				}()
-				st, out, err := pipeline(s.t, s.e, c.Block, c.Jobs, datas[i], c.Ck)
+				st, out, err := pipeline(s.t, s.e, c.Block, c.Jobs, datas[i], c.Ck, c.Feat)
 				switch {
 				case err != nil:
 					errs[i] = "error: " + err.Error()
@@ -145,6 +205,13 @@ func isoCatalogue(c *Ctx, race bool) []isoCase {
 					o = append(o, isoCase{TA: k.t, EA: k.e, TB: k.t, EB: k.e, Jobs: j, Len: int(j)*2048 + 700, Block: 1024, Rounds: 2, K: 1, Ck: ck})
 					o = append(o, isoCase{TA: k.t, EA: k.e, TB: "BWT", EB: "ANS0", Jobs: j, Len: int(j)*2048 + 700, Block: 1024, Rounds: 1, K: 2, Ck: ck})
 				}
+			}
+		}
+		// optional code paths of one instance: listeners (+ verbosity 5), skipBlocks, block ranges
+		for _, ft := range []string{"listener", "skip", "range"} {
+			for _, j := range []uint{3, 8} {
+				o = append(o, isoCase{TA: "LZ", EA: "HUFFMAN", TB: "LZ", EB: "HUFFMAN", Jobs: j, Len: int(j)*2048 + 700, Block: 1024, Rounds: 2, K: 1, Feat: ft})
+				o = append(o, isoCase{TA: "NONE", EA: "NONE", TB: "TEXT", EB: "ANS0", Jobs: j, Len: int(j)*2048 + 700, Block: 1024, Rounds: 1, K: 2, Ck: 64, Feat: ft})
 			}
 		}
 		return o
